@@ -549,7 +549,7 @@ impl<'a> IExec<'a> {
                     minters.insert(mh);
                 }
                 let t = self.toks.len();
-                self.toks.push(Tok { id_bytes: expected_addr, kind: TokKind::Wasm, name, symbol, decimals: decimals as u32, bal: BTreeMap::new(), minters, token_id: Some(id), locked: 0, released: 0, supply: 0, flaky: false });
+                self.toks.push(Tok { id_bytes: expected_addr, kind: TokKind::Wasm, name, symbol, decimals: decimals as u32, bal: BTreeMap::new(), minters, token_id: Some(id), locked: 0, released: 0, supply: 0, flaky: false, weird: false });
                 self.tok_addr.push(taddr);
                 self.m.registry.insert(id, (t, true));
                 self.m.reg_order.push(id);
